@@ -172,7 +172,7 @@ Qed.
 (* ---------- python-axolotl operations ---------- *)
 Lemma G_process_bundle a c k sid a' : process_bundle a c k sid = Some a' -> G a a'.
 Proof.
-  unfold process_bundle. destruct (trusted (a_ids a) c k) eqn:Ht; [|discriminate].
+  unfold process_bundle, build_session. destruct (trusted (a_ids a) c k) eqn:Ht; [|discriminate].
   intros H. apply Some_inj in H. subst a'. autorewrite with acct.
   apply G_install; auto. intros s [Hs | Hs]; [left; subst; reflexivity | right; exists s; auto].
 Qed.
@@ -317,7 +317,7 @@ Proof.
   unfold create_session. destruct (process_bundle a c k sid) as [a'|] eqn:P; cbn [fst].
   - eapply G_process_bundle; eauto.
   - destruct (a_auto a) eqn:Hauto; cbn [fst]; [|apply G_refl].
-    apply G_auto_true; [exact Hauto | autorewrite with acct; exact Hauto].
+    apply G_auto_true; [exact Hauto | unfold build_session; autorewrite with acct; exact Hauto].
 Qed.
 
 Lemma S_keys_result a k res : S a (keys_result a k res).
@@ -436,22 +436,26 @@ Proof.
   rewrite Hf. reflexivity.
 Qed.
 
-(* 4a. auto-trust on: the new key of a bundle replaces the old one *)
+Lemma record_of_upd_same b c r s : record_of (set_sess b (upd c r s)) c = r.
+Proof. unfold record_of. autorewrite with acct. rewrite lookup_upd_same. reflexivity. Qed.
+
+(* 4a. auto-trust on: the new key of a bundle replaces the old one, the session is built and the message goes out *)
 Theorem autotrust_bundle_replaces_thm : forall a iq res c m k' sid,
   a_auto a = true -> lookup iq (a_iqs a) = Some (KSend c m) -> lookup c res = Some (k', sid) ->
-  lookup c (a_ids (fst (step a (IKeys iq res)))) = Some k'.
+  lookup c (a_ids (fst (step a (IKeys iq res)))) = Some k' /\
+  snd (step a (IKeys iq res)) = [OMsg c m EPk sid 0 k'].
 Proof.
   intros a iq res c m k' sid Ht Hq Hr. cbn [step]. rewrite Hq. unfold keys_result. rewrite Hr.
-  unfold create_session, process_bundle. autorewrite with acct.
-  destruct (trusted (a_ids a) c k') eqn:E.
-  - unfold send_to_contact, encrypt. autorewrite with acct.
-    unfold record_of at 1. autorewrite with acct. rewrite lookup_upd_same.
-    cbn [fst]. autorewrite with acct. unfold save_identity. apply lookup_upd_same.
-  - rewrite Ht. unfold send_to_contact. destruct (encrypt _ c) as [[a1 [[[kd s] n] idt]]|] eqn:En; cbn [fst].
-    + unfold encrypt in En. autorewrite with acct in En. destruct (record_of a c); [discriminate|].
-      apply Some_inj in En. apply pair_inj in En. destruct En as [<- _]. autorewrite with acct.
-      unfold save_identity. apply lookup_upd_same.
-    + autorewrite with acct. unfold save_identity. apply lookup_upd_same.
+  set (a0 := set_iqs a (remove_key iq (a_iqs a)) (a_iqctr a)).
+  assert (Hcs : exists b, fst (create_session a0 c k' sid) = build_session b c k' sid /\
+                          snd (create_session a0 c k' sid) = true).
+  { unfold create_session, process_bundle. destruct (trusted (a_ids a0) c k').
+    - exists a0. auto.
+    - replace (a_auto a0) with true by (symmetry; exact Ht). eexists. split; reflexivity. }
+  destruct Hcs as [b [Hb Hok]]. destruct (create_session a0 c k' sid) as [a1 ok]. cbn [fst snd] in Hb, Hok.
+  subst a1 ok. unfold send_to_contact, encrypt, build_session. autorewrite with acct.
+  rewrite !record_of_upd_same. cbn [new_state s_unack s_sid s_sent s_ident fst snd]. autorewrite with acct.
+  split; [unfold save_identity; apply lookup_upd_same | reflexivity].
 Qed.
 
 (* 4b. auto-trust on: a first message with a new identity replaces the key and is delivered *)
@@ -483,9 +487,6 @@ Proof.
     autorewrite with acct. unfold trusted, save_identity. rewrite lookup_upd_same. apply N.eqb_refl.
 Qed.
 
-Lemma record_of_upd_same b c r s : record_of (set_sess b (upd c r s)) c = r.
-Proof. unfold record_of. autorewrite with acct. rewrite lookup_upd_same. reflexivity. Qed.
-
 (* 4c. ... and messaging resumes: once the new key is the remembered one, the next key fetch for the queued
    message builds a session for the new identity and the message goes out under it *)
 Theorem autotrust_resumes_thm : forall a iq res c m k' sid,
@@ -494,7 +495,7 @@ Theorem autotrust_resumes_thm : forall a iq res c m k' sid,
   snd (step a (IKeys iq res)) = [OMsg c m EPk sid 0 k'].
 Proof.
   intros a iq res c m k' sid Hq Hr Hp. cbn [step]. rewrite Hq. unfold keys_result. rewrite Hr.
-  unfold create_session, process_bundle. autorewrite with acct. unfold trusted. rewrite Hp, N.eqb_refl.
+  unfold create_session, process_bundle, build_session. autorewrite with acct. unfold trusted. rewrite Hp, N.eqb_refl.
   unfold plaintext_send, session_exists, send_to_contact, encrypt.
   autorewrite with acct. rewrite !record_of_upd_same.
   cbn [new_state s_unack s_sid s_sent s_ident snd]. reflexivity.
@@ -532,18 +533,16 @@ Qed.
 
 (* ---------- non-vacuity: the history observed on the real code, computed ---------- *)
 (* contact 7 has key 1, reinstalls with key 2.  We (auto-trust on) hold a session for key 1, send message 3
-   under it, receive two retry receipts: the first key fetch only replaces the key (the session is not
-   rebuilt - as coded), the second builds a session for key 2 and message 3 goes out as a prekey message. *)
+   under it, receive a retry receipt: the key fetch replaces the key, builds a session for key 2 and message 3
+   goes out as a prekey message under it. *)
 Definition history_autotrust : list input :=
   [ IAppSend 7 1; IKeys 0 [(7, (1, 50))]; IMsg 7 2 (mkE EMsg 50 0 0 true false 2);
-    IAppSend 7 3; IReceipt 7 3 true; IKeys 1 [(7, (2, 51))];
-    IReceipt 7 3 true; IKeys 2 [(7, (2, 52))] ].
+    IAppSend 7 3; IReceipt 7 3 true; IKeys 1 [(7, (2, 51))] ].
 
 Example resume_history_autotrust :
   snd (run (init true) history_autotrust) =
   [ [OGetKeys 0 7]; [OMsg 7 1 EPk 50 0 1]; [ODeliver 7 2 2; OReceipt 7 2];
-    [OMsg 7 3 EMsg 50 1 1]; [OGetKeys 1 7]; [OMsg 7 3 EMsg 50 2 1];
-    [OGetKeys 2 7]; [OMsg 7 3 EPk 52 0 2] ]
+    [OMsg 7 3 EMsg 50 1 1]; [OGetKeys 1 7]; [OMsg 7 3 EPk 51 0 2] ]
   /\ lookup 7 (a_ids (fst (run (init true) history_autotrust))) = Some 2.
 Proof. vm_compute. split; reflexivity. Qed.
 
@@ -551,18 +550,29 @@ Proof. vm_compute. split; reflexivity. Qed.
 Example refuse_history_no_autotrust :
   snd (run (init false) history_autotrust) =
   [ [OGetKeys 0 7]; [OMsg 7 1 EPk 50 0 1]; [ODeliver 7 2 2; OReceipt 7 2];
-    [OMsg 7 3 EMsg 50 1 1]; [OGetKeys 1 7]; [OErr 7];
-    [OTopReceipt 7 3 true]; [] ]
+    [OMsg 7 3 EMsg 50 1 1]; [OGetKeys 1 7]; [OErr 7] ]
   /\ lookup 7 (a_ids (fst (run (init false) history_autotrust))) = Some 1.
 Proof. vm_compute. split; reflexivity. Qed.
 
-(* with auto-trust ON the invariant of theorem 2 is false for the code as it is: after the first retry the
-   message is re-encrypted under the session built for key 1 although key 2 is now the remembered key *)
-Example autotrust_encrypts_under_old_session_witness :
-  exists pre i c m k sid n ident,
-    In (OMsg c m k sid n ident) (snd (step (fst (run (init true) pre)) i)) /\
-    lookup c (a_ids (fst (step (fst (run (init true) pre)) i))) <> Some ident.
+(* the unrepaired create_session (trust_identity only): the caller is told "success" although no session exists -
+   on the real code sendToContact then raises out of the stack (found by the random histories) *)
+Example create_session_unrepaired_refuted :
+  exists a c k sid,
+    a_auto a = true /\ snd (create_session_unrepaired a c k sid) = true /\
+    session_exists (fst (create_session_unrepaired a c k sid)) c = false /\
+    session_exists (fst (create_session a c k sid)) c = true.
 Proof.
-  exists (firstn 5 history_autotrust), (IKeys 1 [(7, (2, 51))]), 7, 3, EMsg, 50, 2, 1.
-  vm_compute. split; [left; reflexivity | discriminate].
+  exists (mkA true [(7, 1)] [] [] [] [] [] [] 0), 7, 2, 51. vm_compute. repeat split; reflexivity.
+Qed.
+
+(* with auto-trust ON the invariant of theorem 2 does not hold (archived states keep the old identity); it is
+   stated for auto-trust off only, as the property is *)
+Example autotrust_keeps_old_states_witness :
+  exists a, a_auto a = true /\ tagged a /\ ~ tagged (fst (create_session a 7 2 51)).
+Proof.
+  exists (mkA true [(7, 1)] [(7, [mkS 50 1 false 0 []])] [] [] [] [] [] 0). split; [reflexivity|]. split.
+  - intros c r s H Hin. cbn [a_sess lookup] in H. destruct (7 =? c) eqn:E; [|discriminate]. apply N.eqb_eq in E. subst c.
+    apply Some_inj in H. subst r. destruct Hin as [<- | []]. reflexivity.
+  - intros T. specialize (T 7 _ (mkS 50 1 false 0 []) eq_refl (or_intror (or_introl eq_refl))).
+    vm_compute in T. discriminate.
 Qed.
